@@ -28,6 +28,9 @@ type c12Scenario struct {
 	Script    string       `json:"script"`
 	Schedules int          `json:"schedules"`
 	StopEarly bool         `json:"stop_without_waiting_for_idle"`
+	WinS      int          `json:"batch_window_s,omitempty"`
+	EmptyFor  int          `json:"parent_whose_first_points_are_filtered_out"` // -1: none
+	EmptyMinS int          `json:"filter_keeps_points_from_seq,omitempty"`
 	OwnFields bool         `json:"parents_have_fields_of_their_own,omitempty"` // parent p also carries a field x<p>: the names of filled fields then depend on which parent they are taken from
 	Configs   []string     `json:"configs"`
 }
@@ -62,6 +65,12 @@ func c12Gen(c *Ctx) *c12Scenario {
 	}
 	sc.TolS = []int{0, 0, 1, 5}[g.Intn(4)]
 	sc.Fill = []string{"", "", "null", "0"}[g.Intn(4)]
+	if sc.Kind == "batchjoin" && g.Chance(2, 3) {
+		sc.TolS = 0 // (the pairing reference for batch joins covers exactly aligned batches)
+		if g.Bool() {
+			sc.Fill = ""
+		}
+	}
 	sc.Schedules = 3
 	if c.Thorough() {
 		sc.Schedules = 6
@@ -71,14 +80,17 @@ func c12Gen(c *Ctx) *c12Scenario {
 	var sb strings.Builder
 	win := ""
 	emptyFor, emptyWin := -1, ""
+	sc.EmptyFor = -1
 	if sc.Kind == "batchjoin" || sc.Kind == "batchunion" {
-		win = "\n    |window().period(3s).every(3s).align()" // several batches per parent, so that one parent can be batches ahead
+		sc.WinS = []int{3, 3, 6, 8}[g.Intn(4)]
+		win = fmt.Sprintf("\n    |window().period(%ds).every(%ds).align()", sc.WinS, sc.WinS) // several batches per parent, so that one parent can be batches ahead
 		if g.Bool() {
 			// a node that forwards the batch piecewise (begin, points, end): the join's reader of this parent reassembles it
 			win += "\n    |where(lambda: \"v\" >= 0)"
 		} else if sc.Kind == "batchjoin" && g.Bool() {
 			// ... and filters: the first batches of one parent reach the join empty
-			emptyFor, emptyWin = g.Intn(np), win+fmt.Sprintf("\n    |where(lambda: \"s\" >= %d)", g.Range(2, 6))
+			sc.EmptyFor, sc.EmptyMinS = g.Intn(np), g.Range(2, 6)
+			emptyFor, emptyWin = sc.EmptyFor, win+fmt.Sprintf("\n    |where(lambda: \"s\" >= %d)", sc.EmptyMinS)
 		}
 	}
 	for p := 0; p < np; p++ {
@@ -311,6 +323,83 @@ func c12JoinModel(sc *c12Scenario) []string {
 	return out
 }
 
+// c12BatchJoinModel: inner join of batches.  Each parent's points of one group are cut into the batches its window
+// node emits (C03's reference: tumbling, aligned, one emission per arrival at or after the next edge); the batches
+// of one group that end at the same time in every parent are joined point by point: per timestamp, the k-th
+// occurrence in each parent, as long as every parent has one.
+func c12BatchJoinModel(sc *c12Scenario) []string {
+	names := []string{"pa", "pb", "pc"}
+	np := len(sc.Parents)
+	wm := &c03Scenario{PeriodS: sc.WinS, EveryS: sc.WinS, Align: true}
+	type key struct {
+		g string
+		T int
+	}
+	batches := map[key][][]c12Point{} // per parent: the points of the batch (nil slot = the parent emitted no such batch)
+	have := map[key][]bool{}
+	for p, pts := range sc.Parents {
+		byG := map[string][]c12Point{}
+		for _, pt := range pts {
+			byG[pt.G] = append(byG[pt.G], pt)
+		}
+		for _, g := range simrt.Keys(byG) {
+			var ts []int
+			for _, pt := range byG[g] {
+				ts = append(ts, pt.T)
+			}
+			for _, w := range wm.model(ts) {
+				k := key{g, w.T}
+				if batches[k] == nil {
+					batches[k], have[k] = make([][]c12Point, np), make([]bool, np)
+				}
+				have[k][p] = true
+				for _, id := range w.Ids {
+					if pt := byG[g][id]; p != sc.EmptyFor || pt.S >= sc.EmptyMinS {
+						batches[k][p] = append(batches[k][p], pt)
+					}
+				}
+			}
+		}
+	}
+	var out []string
+	for k, per := range batches {
+		all := true
+		for p := 0; p < np; p++ {
+			all = all && have[k][p]
+		}
+		if !all {
+			continue
+		}
+		byT := map[int][][]c12Point{}
+		for p := 0; p < np; p++ {
+			for _, pt := range per[p] {
+				if byT[pt.T] == nil {
+					byT[pt.T] = make([][]c12Point, np)
+				}
+				byT[pt.T][p] = append(byT[pt.T][p], pt)
+			}
+		}
+		for t, occ := range byT {
+			n := 1 << 30
+			for p := 0; p < np; p++ {
+				if len(occ[p]) < n {
+					n = len(occ[p])
+				}
+			}
+			for i := 0; i < n; i++ {
+				fields := map[string]interface{}{}
+				for p := 0; p < np; p++ {
+					fields[names[p]+".s"] = int64(occ[p][i].S)
+					fields[names[p]+".v"] = int64(occ[p][i].S*10 + p)
+				}
+				out = append(out, fmt.Sprintf("g=%s T=%d%s", k.g, k.T, c12Canon("", int64(t)*1e9, fields)))
+			}
+		}
+	}
+	sort.Strings(out)
+	return out
+}
+
 func runC12(c *Ctx) Verdict {
 	sc := c12Gen(c)
 	c.Scenario = sc
@@ -346,6 +435,35 @@ func runC12(c *Ctx) Verdict {
 			if strings.Join(want, "\n") != strings.Join(lines, "\n") {
 				v := Fail("join/pairing", "join output differs from the reference pairing model (per group and tolerance-rounded time, k-th occurrence of each parent; fill=%q, tolerance=%ds) under schedule %d.\nmissing from output:\n%s\nunexpected in output:\n%s",
 					sc.Fill, sc.TolS, k, diffLines(want, lines), diffLines(lines, want))
+				v.Shape = map[string]interface{}{"kind": sc.Kind, "fill": sc.Fill}
+				return v
+			}
+		case "batchjoin":
+			if sc.Fill != "" || sc.TolS != 0 {
+				break // the reference below is for inner joins of exactly aligned batches
+			}
+			want := c12BatchJoinModel(sc)
+			var got []string
+			for _, l := range lines {
+				// "batch <name> <group> tmax=<T> [<point>; <point>]"
+				var name, grp string
+				var tmax int
+				i := strings.Index(l, "[")
+				if _, err := fmt.Sscanf(l[:i], "batch %s %s tmax=%d", &name, &grp, &tmax); err != nil || i < 0 {
+					return Fail("harness/parse", "cannot parse %q: %v", l, err)
+				}
+				body := strings.TrimSuffix(l[i+1:], "]")
+				if body == "" {
+					continue // an empty joined batch says nothing
+				}
+				for _, pt := range strings.Split(body, "; ") {
+					got = append(got, fmt.Sprintf("%s T=%d%s", grp, tmax, pt))
+				}
+			}
+			sort.Strings(got)
+			if strings.Join(want, "\n") != strings.Join(got, "\n") {
+				v := Fail("join/pairing", "the points of the joined batches differ from the reference (inner join of the parents' batches of one group and window: per timestamp the k-th occurrences present in all parents) under schedule %d.\nmissing from output:\n%s\nunexpected in output:\n%s",
+					k, diffLines(want, got), diffLines(got, want))
 				v.Shape = map[string]interface{}{"kind": sc.Kind, "fill": sc.Fill}
 				return v
 			}
@@ -453,12 +571,12 @@ func init() {
 	Register(&Prop{
 		ID:  "C12",
 		Run: runC12,
-		Rule: "case = 2-3 parent branches (separate from() per measurement, grouped by tag g, optionally windowed (3s tumbling) for a batch join, or the first parent grouped more finely and joined .on('g')) into join(as, tolerance 0/1s/5s, inner or fill null/0, parents optionally with a field of their own) or union (of points or of batches); outputs are compared with their measurement name; one writer per parent with a seeded non-decreasing time sequence (duplicates, gaps, silent or empty parents); " +
-			"(round 3) in batch joins one parent may be filtered so that its first batches reach the join empty, and every point of a joined batch must carry the fields of every parent under its as() name; " +
+		Rule: "case = 2-3 parent branches (separate from() per measurement, grouped by tag g, optionally windowed (3s, 6s or 8s tumbling) for a batch join, or the first parent grouped more finely and joined .on('g')) into join(as, tolerance 0/1s/5s, inner or fill null/0, parents optionally with a field of their own) or union (of points or of batches); outputs are compared with their measurement name; one writer per parent with a seeded non-decreasing time sequence (duplicates, gaps, silent or empty parents); " +
+			"inner batch joins without tolerance are also compared with a pairing reference (the batches C03's window reference gives each parent, joined per group, window end and timestamp by k-th occurrence); (round 3) in batch joins one parent may be filtered so that its first batches reach the join empty, and every point of a joined batch must carry the fields of every parent under its as() name; " +
 			"the same workload is executed under 3 (quick) / 6 (thorough) independently seeded schedules, some of which starve a parent or the join; the task is then drained by TaskMaster.Close; " +
 			"non-trivial = at least one point was written; distinct = distinct (scenario, interleaving signatures of all schedules) tuples",
 		Real:        []string{"JoinNode (joinGroup, joinset), UnionNode, CircularQueue", "edge.multiConsumer (one reader goroutine per parent)", "WindowNode (batch join)", "TaskMaster ingest/fork/Close, FromNode, LogNode", "services/httpd write endpoint"},
 		Stub:        []string{"libflux C stub (never called)", "no sockets"},
-		Assumptions: []string{"each parent's points are written in non-decreasing time order by one writer (the property's precondition)", "batch joins, batch unions and join().on() (first parent grouped by g,h, the others by g) are checked for schedule independence only (no pairing model)"},
+		Assumptions: []string{"each parent's points are written in non-decreasing time order by one writer (the property's precondition)", "outer batch joins, batch joins with a tolerance, batch unions and join().on() (first parent grouped by g,h, the others by g) are checked for schedule independence only (no pairing model)"},
 	})
 }
